@@ -6,6 +6,7 @@ package getoptions
 
 import (
 	"context"
+	"strconv"
 	"strings"
 )
 
@@ -23,6 +24,8 @@ func unknownToken(form int) (tok string, name string) {
 		vAssume(!strings.HasPrefix("sopt", x))
 		vAssume(!strings.HasPrefix("list", x))
 		vAssume(!strings.HasPrefix("k", x))
+		vAssume(!strings.HasPrefix("ilist", x))
+		vAssume(!strings.HasPrefix("nums", x))
 		return "--" + x, x
 	case 1: // --x=w
 		x := vString("x")
@@ -35,6 +38,8 @@ func unknownToken(form int) (tok string, name string) {
 		vAssume(!strings.HasPrefix("sopt", x))
 		vAssume(!strings.HasPrefix("list", x))
 		vAssume(!strings.HasPrefix("k", x))
+		vAssume(!strings.HasPrefix("ilist", x))
+		vAssume(!strings.HasPrefix("nums", x))
 		return "--" + x + "=" + w, x
 	case 2: // -y : one letter, the same reading in all three modes
 		return "-y", "y"
@@ -47,11 +52,11 @@ func VerifC08_Placement() {
 	vNativeReset()
 	mode := vInt("mode", 0, 2)
 	um := vInt("um", 0, 2)
-	place := vInt("place", 0, 9)
+	place := vInt("place", 0, 12)
 	form := vInt("form", 0, 3)
 	u, name := unknownToken(form)
 	v := positional("v")
-	q := positional("q", "cmd", "wrap")
+	q := positional("q", "cmd", "wrap", "wrap2")
 
 	opt := New()
 	setMode(opt, mode)
@@ -61,6 +66,8 @@ func VerifC08_Placement() {
 	str := opt.String("str", "d")
 	sopt := opt.StringOptional("sopt", "dso")
 	list := opt.StringSlice("list", 1, 3)
+	ilist := opt.IntSlice("ilist", 1, 3)
+	flist := opt.Float64Slice("nums", 1, 3)
 	ran := ""
 	opt.SetCommandFn(func(c context.Context, o *GetOpt, a []string) error { ran += "root;"; return nil })
 	cmd := opt.NewCommand("cmd", "")
@@ -69,6 +76,9 @@ func VerifC08_Placement() {
 	wrap := opt.NewCommand("wrap", "")
 	wrap.UnsetOptions().SetUnknownMode(Pass)
 	wrap.SetCommandFn(func(c context.Context, o *GetOpt, a []string) error { ran += "wrap;"; return nil })
+	wrap2 := opt.NewCommand("wrap2", "") // a wrapper that keeps the unknown mode it inherited
+	wrap2.UnsetOptions()
+	wrap2.SetCommandFn(func(c context.Context, o *GetOpt, a []string) error { ran += "wrap2;"; return nil })
 
 	var args, want []string
 	effUm := um
@@ -107,6 +117,23 @@ func VerifC08_Placement() {
 		vAssume(mode == 1 && form == 2)
 		u, name = "-yfz", "y"
 		args, want = []string{u}, []string{u}
+	case 10:
+		// a wrapper without a mode of its own: the inherited mode applies inside it
+		args, want = []string{"wrap2", u, q}, []string{u, q}
+	case 11:
+		// a number-looking unknown option is not a further value of an int list
+		vAssume(form == 2)
+		n := vInt("n", 1, 1000000)
+		u, name = "-"+strconv.Itoa(n), strconv.Itoa(n)
+		if mode != 0 {
+			name = "" // Bundling / SingleDash read the first digit as the option
+		}
+		args, want = []string{"--ilist", "80", u, q}, []string{u, q}
+	case 12:
+		// nor of a float list
+		vAssume(form == 2)
+		u, name = "-2.5", "2"
+		args, want = []string{"--nums", "1.5", u, q}, []string{u, q}
 	}
 	vPhase("run")
 	remaining, err := opt.Parse(args)
@@ -151,6 +178,10 @@ func VerifC08_Placement() {
 			vAssert("around/optional-keeps-default", *sopt == "dso" && opt.Called("sopt"))
 		case 7:
 			vAssert("around/list", eqStrs(*list, []string{v}))
+		case 11:
+			vAssert("around/int-list", eqInts(*ilist, []int{80}))
+		case 12:
+			vAssert("around/float-list", len(*flist) == 1 && (*flist)[0] == 1.5)
 		case 8:
 			vAssert("around/bundled-known-letters", *flag && *kflag)
 		case 9:
